@@ -4,3 +4,4 @@ cd "$(dirname "$0")"
 mkdir -p gen ../../build/include/rkcommon
 python3 ../../lib/mkversion.py >/dev/null 2>&1
 python3 ../../tools/cxx2coq/cxx2coq.py ../../tools/cxx2coq/inst/idx.cpp gen/GenIdx.v.new --only 'multidim_index|array3D_(longProduct|longIndex|coordsOf)|long_product' && { cmp -s gen/GenIdx.v.new gen/GenIdx.v || mv gen/GenIdx.v.new gen/GenIdx.v; rm -f gen/GenIdx.v.new; }
+python3 ../../props/C17/factgen.py --out gen/FactsArr.v --work ../../build/C17/ast --inc ../../build/include 2>/dev/null
